@@ -23,6 +23,10 @@ checks = {
    'Two runtime monitors. (1) 64-bit semaphore reference model stepped in lock-step with api.Entry/Exit histories over several resources (1-3 rules, random exit order, batches over the full uint32 range): decision, triggered rule/value, gauge after every exit/rejection. (2) Cooperative scheduler as for C02: decision consistent with [in-flight, in-flight+in-path], peak in-flight <= N + k_inside - 1.',
    'Trusts the semaphore model and the coop scheduler; interleavings at slot granularity, sampled (bounded DFS for 2 workers).',
    'runtime reference-model monitor + cooperative-scheduler interleaving monitor on the real slot chain', 'DESIGN.md §3 C04'),
+ 'C13': ('exploration',
+   'Model-based monitor over all six rule modules: generated sequences of LoadRules / LoadRulesOfResource (LoadRuleOfResource for outlier) / ClearRules / ClearRulesOfResource / identical reload with freshly allocated equal objects, lists mixing binding valid rules (unique id + probe signature), inert valid rules, every field-wise invalidity class of the module and nil elements. After every step the getters (ids, order within a resource) and probe traffic (admissions until the first block and the triggered rule: frozen-window requests for flow, nested entries for isolation / hotspot / system, error completions for breakers, failing callee completions until FilterNodes reports the node for outlier) on the touched and on another resource are compared with the model = valid rules of the latest load per resource.',
+   'Validity is the monitor\'s own transcription of each module\'s documented check; probes observe the binding (minimum-K) rule and the getters the whole list; generated rules are semantically unique (the managers re-use the controller and the old rule object of a rule equal in every field but ID, which is not treated as a violation); unsupported-enum rules accepted by the module\'s own check are not generated.',
+   'runtime model-based monitor: getters + signature probe traffic vs latest-valid-load model', 'DESIGN.md §3 C13'),
  'C16': ('exploration',
    'Trace monitor on generated chains of recording slots (order values with forced ties, 0-6 or 13-42 slots per kind, behaviours pass/nil/wait/block-fresh/block-by-mutating-context-result/panic, exit handlers error/panic): the complete call log of each Entry/Exit/re-Exit is compared with the sequence implied by the chain description (ascending order, stable ties, first block wins, statistic callbacks exactly once, fail-open), and every returned *BlockError is re-read after 1/10/100/1000 further entries that recycle pooled objects.',
    'Trusts the chain description as oracle; sequential, GOMAXPROCS=1 so that sync.Pool is a LIFO.',
